@@ -39,9 +39,12 @@ const IMPORTS: &str =
     "From Verif Require Import Lib.Bytes Lib.Obs Lib.HeaderMap Model.Status Model.Decoder Model.Codec Model.Call.";
 pub const RESERVED: [&str; 6] = ["te", "user-agent", "content-type", "grpc-message", "grpc-message-type", "grpc-status"];
 /// header names that are not reserved but that tonic itself interprets (audit M1).  The
-/// theorems of Props/C02.v have exactly two premises about them - no `grpc-encoding` entry in
-/// any metadata, no `grpc-status-details-bin` entry in STATUS metadata - and the oracle's domain
-/// (`in_domain`) is exactly that; the other names are ordinary metadata for the oracle.
+/// theorems of Props/C02.v have exactly one premise about them - no `grpc-encoding` entry in
+/// any metadata - and the oracle's domain (`in_domain`) is exactly that; the other names are
+/// ordinary metadata for the oracle.  `grpc-status-details-bin` in STATUS metadata is inside the
+/// domain since fix ed827503 of F-C04e: code, message and DETAILS of the error must be the
+/// handler's in every case; only the delivery of that one entry is excused (the reader strips the
+/// name, it can never arrive) - `status_matches` requires it to be absent.
 const PROTOCOL: [&str; 4] = ["grpc-encoding", "grpc-accept-encoding", "grpc-timeout", "grpc-status-details-bin"];
 const MSG_PREFIX: &str = "Error deserializing status message header: ";
 const DET_PREFIX: &str = "Error deserializing status details header: ";
@@ -811,17 +814,24 @@ fn status_matches(got: &Status, want: &StSpec) -> Option<String> {
     if got.message() != want.msg {
         return Some(format!("error message {:?} instead of the handler's {:?}", got.message(), want.msg));
     }
+    // strict, also when the handler's status metadata holds an entry named grpc-status-details-bin
+    // (F-C04e, fixed by ed827503: with empty details that entry used to be read as the details)
     if got.details() != &want.details[..] {
         return Some("error details differ from the handler's".into());
     }
-    md_contains(&got.metadata().clone().into_headers(), &want.md, "error status")
+    let gm = got.metadata().clone().into_headers();
+    if gm.contains_key("grpc-status-details-bin") {
+        return Some("error status: an entry named grpc-status-details-bin is in the received metadata".into());
+    }
+    let deliverable: Md = want.md.iter().filter(|(k, _)| k != "grpc-status-details-bin").cloned().collect();
+    md_contains(&gm, &deliverable, "error status")
 }
 /// does the case lie in the domain of the theorems (Props/C02.v premises, checks/C02.json):
-/// no grpc-encoding entry in any metadata, no grpc-status-details-bin entry in status
-/// metadata, error statuses have a code other than OK
+/// no grpc-encoding entry in any metadata, error statuses have a code other than OK (a
+/// grpc-status-details-bin entry in status metadata is INSIDE the domain since fix ed827503)
 pub fn in_domain(c: &CallCase) -> bool {
     let has = |md: &Md, k: &str| md.iter().any(|(x, _)| x == k);
-    let st_ok = |s: &StSpec| s.code != 0 && !has(&s.md, "grpc-encoding") && !has(&s.md, "grpc-status-details-bin");
+    let st_ok = |s: &StSpec| s.code != 0 && !has(&s.md, "grpc-encoding");
     if has(&c.md, "grpc-encoding") {
         return false;
     }
@@ -1663,6 +1673,16 @@ fn corpus(out: &mut Out) {
         run_case(out, "corpus.protocol_md", &CallCase { md: vec![kv("grpc-encoding", "identity"), kv("grpc-timeout", "1S")], ..base.clone() });
         run_case(out, "corpus.protocol_md", &CallCase { handler: Handler::Ok(vec![kv("grpc-encoding", "gzip")], vec![Item::Ok(vec![1])]), ..base.clone() });
         run_case(out, "corpus.protocol_md", &CallCase { handler: Handler::Err(st(7, "x", vec![kv("grpc-encoding", "br")])), ..base.clone() });
+        // F-C04e (fixed by ed827503): the handler's error status has NO details and an entry named
+        // grpc-status-details-bin among its metadata - inside the oracle's domain: the caller gets
+        // the handler's code, message and (empty) details; trailers-only and in the trailers
+        let own = vec![kv("x-e", "1"), kv("grpc-status-details-bin", "user"), kv("grpc-status-details-bin", "!!")];
+        run_case(out, "corpus.F-C04e", &CallCase { handler: Handler::Err(st(7, "no", own.clone())), ..base.clone() });
+        run_case(out, "corpus.F-C04e", &CallCase { handler: Handler::Err(st(7, "", own.clone())), ..base.clone() });
+        if shape >= 2 {
+            run_case(out, "corpus.F-C04e", &CallCase { handler: Handler::Ok(vec![kv("x-r", "v")], vec![Item::Ok(vec![1]), Item::Err(st(7, "no", own.clone()))]), ..base.clone() });
+            run_case(out, "corpus.F-C04e", &CallCase { handler: Handler::Ok(vec![], vec![Item::Err(st(3, "", own))]), ..base.clone() });
+        }
     }
 }
 
@@ -1761,7 +1781,7 @@ fn main() {
     }
     out.finish(
         IMPORTS,
-        "limit.*: max_decoding_message_size / max_encoding_message_size set on client::Grpc and server::Grpc (directly and through apply_max_message_size_config), L in {0,1,5,100}, payloads L-1/L/L+1, position 0..2, four shapes; limit.unary_merge reaches the unary client's error-merge branch. interleave.*: the handler of a streaming-request shape answers (Ok or Err) after reading j < n request messages. side.compress: gzip/deflate/zstd configured in both / one direction. The in-process transport honours Body::is_end_stream() like hyper. h2.* (a subset in the quick tier): real hyper HTTP/2 connections. call.*: real client::Grpc over an in-process transport over real server::Grpc with a scripted handler; 4 shapes x 0..5 response messages x all 17 codes x error position (handler Err before any response = trailers-only; Err item before the first message, mid-stream, after the last; none) x status messages (controls, %, UTF-8 up to U+10FFFF) / details / metadata (repeated keys, -bin values, reserved names) x request streams of 0..4 messages with metadata; request and response DATA re-cut (every prefix byte alone, fixed sizes 1..16, random, empty DATA frames) with scripted Pending on both bodies and both source streams. edge.*: protocol header names (grpc-encoding, grpc-timeout, grpc-status-details-bin) in user metadata and OK used as an error code: outside the oracle's domain, model agreement only. h2.* (thorough): the same scripts over hyper/h2 on tokio::io::duplex(256) - final observables. Non-trivial = an error outcome, or >= 2 response items, or a re-cut body. Distinct = distinct (kind, model expression).",
+        "limit.*: max_decoding_message_size / max_encoding_message_size set on client::Grpc and server::Grpc (directly and through apply_max_message_size_config), L in {0,1,5,100}, payloads L-1/L/L+1, position 0..2, four shapes; limit.unary_merge reaches the unary client's error-merge branch. interleave.*: the handler of a streaming-request shape answers (Ok or Err) after reading j < n request messages. side.compress: gzip/deflate/zstd configured in both / one direction. The in-process transport honours Body::is_end_stream() like hyper. h2.* (a subset in the quick tier): real hyper HTTP/2 connections. call.*: real client::Grpc over an in-process transport over real server::Grpc with a scripted handler; 4 shapes x 0..5 response messages x all 17 codes x error position (handler Err before any response = trailers-only; Err item before the first message, mid-stream, after the last; none) x status messages (controls, %, UTF-8 up to U+10FFFF) / details / metadata (repeated keys, -bin values, reserved names) x request streams of 0..4 messages with metadata; request and response DATA re-cut (every prefix byte alone, fixed sizes 1..16, random, empty DATA frames) with scripted Pending on both bodies and both source streams. edge.*: protocol header names (grpc-encoding, grpc-timeout, grpc-status-details-bin) in user metadata and OK used as an error code: cases with a grpc-encoding entry or an OK error code are outside the oracle's domain (model agreement only); grpc-status-details-bin in status metadata is inside it since fix ed827503 (F-C04e: the error's details must be the handler's, the entry itself is never delivered). h2.* (thorough): the same scripts over hyper/h2 on tokio::io::duplex(256) - final observables. Non-trivial = an error outcome, or >= 2 response items, or a re-cut body. Distinct = distinct (kind, model expression).",
         json!({"exhaustive": false}),
     );
 }
